@@ -297,6 +297,22 @@ pub fn scenarios(prop: &str, tier: &str) -> Vec<Scenario> {
                 }
             }
         }
+        // a goal region the space bounds cut off: every goal sample lies outside the bounds (the checker
+        // accepts it). Whatever a planner does with such a sample, a returned path ends INSIDE the goal
+        // region - a sample "repaired" into the bounds is no longer a goal state.
+        if prop == "C02" {
+            if let Some((spec, goal_s)) = out_of_bounds_goal(&b) {
+                for pk in Pk::ALL {
+                    for sm in [1.0, 1.6] {
+                        let mut sc = b.scenario(b.world_free(), b.params(pk, if pk == Pk::Prm { 1.6 } else { sm }, 1.5, 0.0), &format!("C02/{kit}/free/{}x{sm}/goal-outside-bounds", pk.name()));
+                        sc.spec = spec.clone();
+                        sc.goal_balls = vec![(goal_s.clone(), 0.1)];
+                        sc.goal_samples = vec![goal_s.clone(), goal_s.clone()];
+                        out.push(sc);
+                    }
+                }
+            }
+        }
         // RRT / RRT*: a goal sampler that also returns a state just OUTSIDE the goal region (a sampler
         // that is right in exact arithmetic and off by an ulp at the rim): every draw comes from it
         // (bias 1), and a path may only end where the goal PREDICATE holds, adopted sample or not
@@ -427,6 +443,36 @@ fn noncanonical(v: &crate::kit::V) -> Option<crate::kit::V> {
     }
 }
 
+/// A bounded version of the base space whose bounds end a quarter unit short of the first goal sample.
+fn out_of_bounds_goal(b: &Base) -> Option<(Spec, crate::kit::V)> {
+    use crate::kit::V;
+    match (&b.spec, &b.goal_samples[0]) {
+        (Spec::Rv { dim, .. }, V::Rv(x)) => {
+            let mut bounds = vec![(0.0, 4.0); *dim];
+            bounds[0] = (0.0, x[0] - 0.25);
+            Some((Spec::Rv { dim: *dim, bounds: Some(bounds), frac: None }, V::Rv(x.clone())))
+        }
+        (Spec::So2 { .. }, V::So2(a)) => Some((Spec::So2 { bounds: Some((-3.0, a - 0.125)), frac: None }, V::So2(*a))),
+        (Spec::Cmp { parts, weights }, V::Cmp(c)) => {
+            let mut parts = parts.clone();
+            if let (Spec::Rv { dim, bounds, .. }, V::Rv(x)) = (&mut parts[0], &c[0]) {
+                let mut nb = vec![(0.0, 4.0); *dim];
+                nb[0] = (0.0, x[0] - 0.25);
+                *bounds = Some(nb);
+                return Some((Spec::Cmp { parts, weights: weights.clone() }, V::Cmp(c.clone())));
+            }
+            None
+        }
+        (Spec::Se2 { weight, .. }, V::Cmp(c)) => {
+            if let V::Rv(x) = &c[0] {
+                return Some((Spec::Se2 { weight: *weight, bounds: Some(vec![(0.0, x[0] - 0.25), (0.0, 4.0), (-PI, PI)]) }, V::Cmp(c.clone())));
+            }
+            None
+        }
+        _ => None,
+    }
+}
+
 /// A bounded version of the base space together with a start just outside those bounds (None where the
 /// base space has no bounds to leave).
 fn out_of_bounds_start(b: &Base) -> Option<(Spec, crate::kit::V)> {
@@ -502,6 +548,22 @@ fn scenarios_c04(tier: &str) -> Vec<Scenario> {
                     sc.goal_samples = vec![goal.clone(), goal.clone()];
                     out.push(sc);
                 }
+            }
+        }
+    }
+    // --- a goal region that OVERHANGS the bound (every goal sample is inside): a state the goal predicate
+    // accepts is still subject to the bounds. Step 0.35 from -2.9 across the excluded arc lands at 3.033.
+    {
+        let b = base_of("SO2");
+        for pk in Pk::ALL {
+            for sm in [0.35, 0.36] {
+                let mut sc = b.scenario(b.world_free(), b.params(pk, sm, 1.5, 0.0), &format!("C04/SO2/span>pi-goal-overhang/{}x{sm}", pk.name()));
+                sc.spec = Spec::So2 { bounds: Some((-3.0, 3.0)), frac: None };
+                sc.alphabet = [-2.9, -2.9, -2.0, 0.0, 2.0, 2.9, 2.95, -3.0, 3.0, 1.0].iter().map(|a| V::So2(*a)).collect();
+                sc.start = V::So2(-2.9);
+                sc.goal_balls = vec![(V::So2(2.95), 0.1)];
+                sc.goal_samples = vec![V::So2(2.95), V::So2(2.9)];
+                out.push(sc);
             }
         }
     }
@@ -926,12 +988,73 @@ pub fn run(prop: &'static str, tier: &'static str) -> i32 {
     let pr = rep.get("paths_returned");
     rep.count("traces_validated", pr);
     if prop == "C02" {
+        rep.merge(long_branches(tier));
+    }
+    if prop == "C02" {
         // history half: call sequences with replaced problems / re-setup (DESIGN C02)
         let hr = crate::props_api::explore("C02", tier);
         rep.count("api_call_sequences", hr.get("evaluations"));
         rep.merge(hr);
     }
     finish(&meta, rep, t0)
+}
+
+/// C02 on LONG solution branches: a corridor 50 units long planned with a step of 0.01, so that the branch
+/// from the start to the goal has thousands of nodes (real sampler, seeded generator, goal bias 1/2). The
+/// path still begins with the start, bit for bit, and ends in the goal - however long the walk back is.
+fn long_branches(tier: &'static str) -> Report {
+    use crate::explore::guarded;
+    use crate::seams::GoalMode;
+    use rayon::prelude::*;
+    let b = base_of("RealVector");
+    let seeds: Vec<u64> = if tier == "quick" { vec![1] } else { vec![1, 2, 3, 4] };
+    let jobs: Vec<(Pk, u64)> = [Pk::Rrt, Pk::Star, Pk::Connect].iter().flat_map(|pk| seeds.iter().map(move |s| (*pk, *s))).collect();
+    jobs.par_iter()
+        .map(|(pk, seed)| {
+            let mut rep = Report::new();
+            let mut p = b.params(*pk, 0.01, 1.5, 0.5);
+            p.seed = Some(*seed);
+            let mut sc = b.scenario(b.world_free(), p, &format!("C02/RealVector/corridor/{}x0.01/long-branch/seed{seed}", pk.name()));
+            sc.spec = Spec::Rv { dim: 2, bounds: Some(vec![(0.0, 60.0), (1.9, 2.1)]), frac: None };
+            sc.goal_balls = vec![(V::Rv(vec![50.0, 2.0]), 0.5)];
+            sc.goal_samples = vec![V::Rv(vec![50.0, 2.0])];
+            crate::explore::watch_desc(|| format!("{{\"scenario\": {:?}}}", sc.tag));
+            let run = guarded(|| {
+                let mut rig = Rig::<crate::kit::Rv>::new(&sc, true);
+                rig.pass_through();
+                rig.goal_mode(GoalMode::Cycle);
+                oxmpl::verif::clock_reset(1_000_000);
+                let r = rig.drv.solve(crate::drv::iters(60_000));
+                (r, rig.snapshot().node_count(), rig)
+            });
+            rep.count("evaluations", 1);
+            match run {
+                Err(Caught::Panic(m)) => rep.violate(format!("C02|{}|long-branch|panic", pk.name()), format!("solve unwound on a long branch: {m}"), || json!({"kind": "long-branch", "prop": "C02", "scenario": sc.json()})),
+                Err(c) => rep.engine_error(format!("long-branch run {}: {c:?}", sc.tag)),
+                Ok((Err(_), n, _)) => {
+                    rep.count("long_branch_runs_without_path", 1);
+                    rep.max("max_long_branch_tree_nodes", n as u64);
+                }
+                Ok((Ok(path), n, rig)) => {
+                    rep.count("long_branch_paths", 1);
+                    rep.count("paths_returned", 1);
+                    rep.max("max_long_branch_path_states", path.len() as u64);
+                    rep.max("max_long_branch_tree_nodes", n as u64);
+                    let first_ok = path.first().map(|s| crate::kit::Rv::same(s, &rig.start)).unwrap_or(false);
+                    let last_ok = path.last().map(|s| rig.goal.contains(s)).unwrap_or(false);
+                    if !first_ok {
+                        rep.violate(format!("C02|{}|long-branch|first-state-not-start", pk.name()), format!("a path of {} states (tree of {n} nodes) does not begin with the start state", path.len()), || json!({"kind": "long-branch", "prop": "C02", "scenario": sc.json(), "path_states": path.len(), "first": path.first().map(|s| crate::kit::Rv::to_v(s).json())}));
+                    } else if !last_ok {
+                        rep.violate(format!("C02|{}|long-branch|last-state-not-in-goal", pk.name()), format!("a path of {} states does not end in the goal", path.len()), || json!({"kind": "long-branch", "prop": "C02", "scenario": sc.json(), "path_states": path.len()}));
+                    }
+                }
+            }
+            rep
+        })
+        .reduce(Report::new, |mut a, b| {
+            a.merge(b);
+            a
+        })
 }
 
 fn determinism_probe(prop: &str, all: &[Scenario], rep: &mut Report) {
